@@ -241,3 +241,104 @@ Proof.
   split; [exact W1|]. split; [exact W2|]. split; [apply held_filter_out|]. split; [|split; assumption].
   intros e' Hne. rewrite W3. apply held_filter_other. exact Hne.
 Qed.
+
+(* ---------------------------------------------------------------- outgoing side: a local call is written / delivered / held in its own handler *)
+Lemma app_pipe_out : forall c q0 x caps s s1 o ab, app_pipe c q0 x caps s = Ok (s1, o, ab) ->
+  (exists id ds, o = [OCall id (OTAns q0 x) ds]) \/ (exists cls, o = [LAppRes (s_ncall s) cls]).
+Proof.
+  intros c q0 x caps s s1 o ab H. unfold app_pipe, next_call in H.
+  match type of H with context [s_shut ?sx] => destruct (s_shut sx) end; [inversion H; right; eexists; reflexivity|].
+  match type of H with context [tget q0 ?t] => destruct (tget q0 t) as [q|] end; [|inversion H; right; eexists; reflexivity].
+  destruct (q_fin q); [inversion H; right; eexists; reflexivity|].
+  match type of H with (bind ?r _) = _ => destruct r as [[s2 id]| |]; cbn [bind] in H; try discriminate end.
+  match type of H with (bind ?r _) = _ => destruct r as [[[s3 ds] refs]| |]; cbn [bind] in H; try discriminate end.
+  inversion H; subst. left. eexists _, _. reflexivity.
+Qed.
+
+Lemma app_call_out : forall c h caps tag s s1 o ab, app_call c h caps tag s = Ok (s1, o, ab) ->
+  match hget h s with
+  | HBoot q0 => (exists id ds, o = [OCall id (OTAns q0 []) ds]) \/ (exists cls, o = [LAppRes (s_ncall s) cls])
+  | HCap (CImp i g) => (exists id ds, o = [OCall id (OTImp i) ds]) \/ o = [LAppRes (s_ncall s) 3]
+  | HCap (CLocal j) => o = [LDeliver j tag (s_ndeliv s)] /\ s_ndeliv s1 = s_ndeliv s + 1 /\ s_ecalls s1 = s_ecalls s
+  | HCap (CEmb e) => o = [] /\ s_ecalls s1 = s_ecalls s ++ [(e, s_ncall s, tag)] /\ s_ndeliv s1 = s_ndeliv s
+  | _ => o = [LAppRes (s_ncall s) 1]
+  end.
+Proof.
+  intros c h caps tag s s1 o ab H. unfold app_call in H. destruct (hget h s) as [q0|[| |j|i g|e]|].
+  - eapply app_pipe_out; eauto.
+  - unfold next_call in H. inversion H; reflexivity.
+  - unfold next_call in H. inversion H; reflexivity.
+  - unfold next_call in H. inversion H; subst. repeat split.
+  - unfold next_call in H.
+    match type of H with context [s_shut ?sx] => destruct (s_shut sx) end; [inversion H; right; reflexivity|].
+    match type of H with context [imp_current i g ?sx] => destruct (imp_current i g sx) end; simpl negb in H; cbv iota in H; [|inversion H; right; reflexivity].
+    match type of H with (bind ?r _) = _ => destruct r as [[s2 id]| |]; cbn [bind] in H; try discriminate end.
+    match type of H with (bind ?r _) = _ => destruct r as [[[s3 ds] refs]| |]; cbn [bind] in H; try discriminate end.
+    inversion H; subst. left. eexists _, _. reflexivity.
+  - unfold next_call in H. inversion H; subst. repeat split.
+  - unfold next_call in H. inversion H; reflexivity.
+Qed.
+
+(* a held call (PlaceArgs window): its Call is written by the step that ends the window, first *)
+Lemma app_unhold_out : forall c n s s1 o ab, app_unhold c n s = Ok (s1, o, ab) ->
+  o = [] \/ exists qid i rest, o = OCall qid (OTImp i) [] :: rest /\ ocalls rest = [] /\ delivs rest = [].
+Proof.
+  intros c n s s1 o ab H. unfold app_unhold in H.
+  destruct (find_held n (s_qs s) 0) as [[qid q]|]; [|inversion H; left; reflexivity].
+  destruct (q_held q) as [[[i g] cs]|]; [|inversion H; left; reflexivity].
+  destruct (s_shut s); [inversion H; left; reflexivity|].
+  match type of H with context [if ?b then _ else _] => destruct b end.
+  - match type of H with (bind ?r _) = _ => destruct r as [[s3 o3]| |] eqn:E3; cbn [bind] in H; try discriminate end.
+    inversion H; subst. right. exists qid, i, o3. split; [reflexivity|].
+    unfold imp_shutdown in E3. cbn [s_shut set_dead set_busy set_qs] in E3.
+    destruct (s_shut _); [inversion E3; split; reflexivity|]. destruct (aget i _) as [e|].
+    + destruct (i_gen e =? g); inversion E3; split; reflexivity.
+    + destruct (fx20 c); inversion E3; split; reflexivity.
+  - inversion H; subst. right. exists qid, i, []. repeat split.
+Qed.
+
+(* ---------------------------------------------------------------- the answer queue is drained in queue order *)
+Lemma sublist_in : forall A (l1 l : list A) x, sublist l1 l -> In x l1 -> In x l.
+Proof. intros A l1 l x H. induction H; intros Hi; simpl in *; [exact Hi|right; auto|destruct Hi; [left; assumption|right; auto]]. Qed.
+
+Lemma drain_order : forall r k rct lst ids s s1 o ab, drain cfg_fixed r k rct lst ids s = Ok (s1, o, ab) -> NoDup ids ->
+  exists dl, sublist dl ids /\ map (fun d => snd (fst d)) (delivs o) = map (tagz (s_ans s)) dl /\
+             map snd (delivs o) = seqZ (s_ndeliv s) (length dl) /\
+             s_ndeliv s1 = s_ndeliv s + Z.of_nat (length dl) /\
+             (forall b, ~ In b ids -> aget b (s_ans s1) = aget b (s_ans s)).
+Proof.
+  induction ids as [|id ids IH]; intros s s1 o ab H N; simpl in H.
+  - inversion H; subst. exists []. simpl. split; [constructor|]. repeat split; lia.
+  - match type of H with (bind ?r _) = _ => destruct r as [[[s' o'] b']| |] eqn:E; cbn [bind] in H; try discriminate end.
+    destruct (drain cfg_fixed r k rct lst ids s') as [[[s2 o2] b2]| |] eqn:E2; cbn [bind] in H; try discriminate. inversion H; subst.
+    inversion N as [|? ? Hni N']; subst. destruct (IH _ _ _ _ E2 N') as (dl & S & T & K & C & F).
+    assert (D : (exists j a, aget id (s_ans s) = Some a /\ delivered id j (a_tag a) s s' o') \/
+                (delivs o' = [] /\ s_ndeliv s' = s_ndeliv s /\ others_same id s s')).
+    { assert (NOOP : Ok (s, @nil output, false) = Ok (s', o', b') -> delivs o' = [] /\ s_ndeliv s' = s_ndeliv s /\ others_same id s s').
+      { intros HH. inversion HH; subst. split; [reflexivity|]. split; [reflexivity|]. intros b _. reflexivity. }
+      destruct (aget id (s_ans s)) as [a|] eqn:Ea; [|right; apply NOOP; exact E].
+      assert (TRI : forall t, deliver cfg_fixed id a t s = Ok (s', o', b') ->
+                (exists j a0, Some a = Some a0 /\ delivered id j (a_tag a0) s s' o') \/ (delivs o' = [] /\ s_ndeliv s' = s_ndeliv s /\ others_same id s s')).
+      { intros t Ht. destruct (deliver_tri _ _ _ _ _ _ _ Ht) as [(j & _ & Dd)|(x1 & x2 & _ & _ & x5)];
+          [left; exists j, a; split; [reflexivity|exact Dd]|right; repeat split; assumption]. }
+      assert (REJ : reject cfg_fixed id a s = Ok (s', o', b') -> delivs o' = [] /\ s_ndeliv s' = s_ndeliv s /\ others_same id s s').
+      { intros Hr. apply reject_settled in Hr. destruct Hr as (x1 & x2 & _ & _ & x5). repeat split; assumption. }
+      destruct (a_st a) as [|srv|p x] eqn:Est; try (right; apply NOOP; exact E).
+      unfold eff_parent in E. cbn [fx23 cfg_fixed orb] in E.
+      destruct (p =? r); [apply (TRI _ E)|].
+      destruct (aget p (s_ans s)) as [b|]; [|right; apply REJ; exact E].
+      destruct (a_ready b); [destruct (a_err b); [right; apply REJ; exact E|apply (TRI _ E)]|].
+      inversion E; subst. right. split; [reflexivity|]. split; [reflexivity|].
+      intros b0 Hb. unfold set_ans. cbn [s_ans]. rewrite aget_aput. destruct (b0 =? id) eqn:Eb; [lia|reflexivity]. }
+    assert (OS : others_same id s s') by (destruct D as [(j & a & _ & (_ & _ & _ & _ & d5))|(_ & _ & d5)]; exact d5).
+    assert (TG : map (tagz (s_ans s')) dl = map (tagz (s_ans s)) dl).
+    { apply map_ext_in. intros b Hb. unfold tagz. rewrite OS; [reflexivity|]. intros ->. apply Hni. eapply sublist_in; eauto. }
+    assert (FF : forall b, ~ In b (id :: ids) -> aget b (s_ans s1) = aget b (s_ans s)).
+    { intros b Hb. rewrite F by (intros Hi; apply Hb; right; exact Hi). apply OS. intros ->. apply Hb. left. reflexivity. }
+    rewrite delivs_app, !map_app.
+    destruct D as [(j & a & Ea & (d1 & d2 & _ & _ & _))|(d1 & d2 & _)].
+    + exists (id :: dl). split; [constructor; exact S|]. rewrite d1. cbn [map fst snd app length seqZ]. unfold tagz at 1. rewrite Ea.
+      split; [f_equal; rewrite T; exact TG|]. split; [f_equal; rewrite K, d2; reflexivity|]. split; [lia|exact FF].
+    + exists dl. split; [apply sub_skip; exact S|]. rewrite d1. cbn [map app].
+      split; [rewrite T; exact TG|]. split; [rewrite K, d2; reflexivity|]. split; [lia|exact FF].
+Qed.
